@@ -107,18 +107,21 @@ class Factory(object):
 
     def request(self, key):
         tz = self.tz
+        self.nreq = kwform = getattr(self, 'nreq', 0) + 1
         if self.name == 'tzoffset':
-            return tz.tzoffset(*key)
+            return tz.tzoffset(name=key[0], offset=key[1]) if kwform % 3 == 0 else tz.tzoffset(*key)
         if self.name == 'tzstr':
-            return tz.tzstr(key[0], posix_offset=key[1])
+            return tz.tzstr(key[0], key[1]) if kwform % 3 == 0 else tz.tzstr(key[0], posix_offset=key[1])
         return tz.gettz(key[0])
 
     def fresh(self, key):
+        # positional and keyword spellings of the alternate constructor alternate
         tz = self.tz
+        self.nfresh = kwform = getattr(self, 'nfresh', 0) + 1
         if self.name == 'tzoffset':
-            return tz.tzoffset.instance(*key)
+            return tz.tzoffset.instance(name=key[0], offset=key[1]) if kwform % 2 else tz.tzoffset.instance(*key)
         if self.name == 'tzstr':
-            return tz.tzstr.instance(key[0], key[1])
+            return tz.tzstr.instance(key[0], posix_offset=key[1]) if kwform % 2 else tz.tzstr.instance(key[0], key[1])
         return tz.gettz.nocache(key[0])
 
     def expected_offset(self, key):
@@ -781,9 +784,66 @@ def free_running(ctx, tz, rounds, nthreads):
         unguard()
 
 
+def failed_then_valid(ctx, tz):
+    """a request that the factory rejects (its construction raises) must leave the factory usable: once the call is
+    over no cache lock is held (read from the guard locks' wait-for state, not from a timer), and the next valid request
+    from the same or another thread returns the shared object"""
+    if STUCK[0]:
+        return
+    bad_requests = [('tzoffset', lambda: tz.tzoffset('B', '7200')), ('tzoffset', lambda: tz.tzoffset('B', None)),
+                    ('tzoffset', lambda: tz.tzoffset(['unhashable'], 3600)), ('tzoffset', lambda: tz.tzoffset('B', 3600, 1)),
+                    ('tzstr', lambda: tz.tzstr(None)), ('tzstr', lambda: tz.tzstr(12)), ('tzstr', lambda: tz.tzstr('not a TZ string at all !')),
+                    ('tzstr', lambda: tz.tzstr('')), ('tzstr', lambda: tz.tzstr(['EST5EDT'])),
+                    ('gettz', lambda: tz.gettz(5)), ('gettz', lambda: tz.gettz(['Europe/Paris'])), ('gettz', lambda: tz.gettz(b'UTC')),
+                    ('gettz', lambda: tz.gettz('Nowhere/At_All'))]
+    valid = {'tzoffset': lambda: tz.tzoffset('AfterFailure', 5400), 'tzstr': lambda: tz.tzstr('AAA3BBB,M3.2.0,M11.1.0'),
+             'gettz': lambda: tz.gettz('UTC')}
+    for i, (kind, bad) in enumerate(bad_requests):
+        guards, unguard = locks.install_guards(locks.tz_factory_locks())
+        case = {'scenario': 'failed-then-valid', 'factory': kind, 'bad_request_index': i}
+        try:
+            try:
+                bad()
+                outcome = 'returned'
+            except locks.SelfDeadlock:
+                raise
+            except Exception as e:
+                outcome = type(e).__name__
+            ctx.ev()
+            ctx.count('failed_then_valid_' + ('rejected' if outcome != 'returned' else 'accepted'))
+            held = [g.name for g in guards if g.locked()]
+            if held:
+                ctx.violation('lock-held-after-failed-request', dict(case, outcome=outcome), 'after the request (%s) the cache lock(s) %r are still held: '
+                              'every later request blocks forever' % (outcome, held))
+                for g in guards:
+                    if g.locked():
+                        g.release()
+                continue
+            try:
+                first = valid[kind]()
+                box = []
+                t = threading.Thread(target=lambda: box.append(valid[kind]()), daemon=True)
+                t.start()
+                t.join(30)
+                if not box:
+                    ctx.inconclusive_because('request from a second thread after a failed request did not finish')
+                    STUCK[0] = True
+                    return
+                if first is None or box[0] is not first:
+                    ctx.violation('two-live-objects-for-one-key', case, 'after a failed request: %r then %r' % (first, box[0]))
+            except locks.SelfDeadlock as e:
+                ctx.violation('deadlock', case, str(e))
+            except Exception as e:
+                ctx.violation('request-raised', case, 'valid request after a failed one raised %r' % (e,))
+        finally:
+            unguard()
+
+
 def run(ctx):
     from dateutil import tz
     rng = ctx.rng
+    if ctx.shard == 0:
+        failed_then_valid(ctx, tz)
     tz.gettz.cache_clear()
     tz.gettz.set_cache_size(8)
     for kind in ('tzoffset', 'tzstr', 'gettz'):
@@ -848,7 +908,7 @@ def floors(agg, tier):
     for k, n in (('op_request', 5000), ('requests_with_live_object', 2000), ('op_fresh', 500), ('op_set_cache_size', 50), ('op_cache_clear', 30),
                  ('op_gc', 300), ('law_symmetric', 300), ('equal_pairs', 30), ('law_pickle', 60), ('law_copy', 15), ('law_deepcopy', 15),
                  ('scheduled_runs_tzoffset', 300), ('scheduled_runs_tzstr', 200), ('scheduled_runs_gettz', 200), ('scheduled_runs_gettz_clear', 300), ('scheduled_runs_gettz_trim', 300), ('scheduled_runs_drop_tzoffset', 100), ('scheduled_runs_drop_tzstr', 100), ('systematic_runs', 400),
-                 ('distinct_interleavings', 400), ('free_running_rounds', 200)):
+                 ('distinct_interleavings', 400), ('free_running_rounds', 200), ('failed_then_valid_rejected', 6)):
         if c.get(k, 0) < n:
             out.append('%s only %d (< %d)' % (k, c.get(k, 0), n))
     return out
